@@ -170,7 +170,7 @@ def run(tier, replay=None):
                 for wi, counts in enumerate(wins[:5]):
                     for m, c in sorted(counts.items()):
                         for o in range(1, c + 1):
-                            for ph in PHASES + (['mid'] if m == 'Worker.Read' else []):
+                            for ph in PHASES + (['mid'] if m == 'Worker.Read' else []) + (['afterdelay'] if m == 'Worker.Run' else []):
                                 pts.append((wi, m, o, ph))
                 npoints += len(pts)
                 allpoints.append((i, pts))
@@ -191,6 +191,10 @@ def run(tier, replay=None):
                 for (wi, m, o, ph) in pick:
                     pl = {'method': m, 'ordinal': o, 'phase': ph, 'bytes': rng.choice([1, 7, 40, 200]) if ph == 'mid' else 0}
                     scs.append(mk(len(scs) + 1, p0, p1, {wi: [pl]}, cfgs[i], True))
+                # directed: a reply that arrives only after the loss of its machine has been noticed
+                runs = [pt for pt in pts if pt[1] == 'Worker.Run' and pt[3] == 'afterdelay']
+                for (wi, m, o, ph) in rng.sample(runs, min(len(runs), 2 if tier == 'quick' else 8)):
+                    scs.append(mk(len(scs) + 1, p0, p1, {wi: [{'method': m, 'ordinal': o, 'phase': ph, 'bytes': 0}]}, cfgs[i], True))
                 # pairs of kills
                 for _ in range(2 if tier == 'quick' else 12):
                     a, b = rng.choice(pts), rng.choice(pts)
@@ -262,9 +266,18 @@ def run(tier, replay=None):
                 fin = rng.choice(['reduce', 'reduce', 'fold', 'cogroup'])
                 j = g.add(progs.N(fin, **{'in': [j]}, f=rng.choice(['sum', 'max']) if fin == 'reduce' else ''), 'bag', g.nsh[j])
                 sprogs.append({'nodes': g.nodes, 'out': j, 'taps': []})
+            # a merge of sorted shuffle streams that are longer than one read batch of the merging reader (128 rows):
+            # the tear comes after the first batch of a stream has been merged
+            rows600 = [[k, 1] for k in range(300) for _ in range(2)]
+            rr2.shuffle(rows600)
+            longp = {'nodes': [progs.N('const', nshard=2, rows=rows600), progs.N('reduce', **{'in': [0]}, f='sum')], 'out': 1, 'taps': []}
+            for b in rng.sample(range(1200, 5200), 12 if tier == 'quick' else 120):
+                plans = [{'method': 'Worker.Read', 'ordinal': rng.choice([1, 2, 3, 4]), 'phase': 'mid', 'bytes': b}]
+                steps = [kills_step(plans), progs.step_run('r0', longp), kills_step([]), progs.step_scan('r0')]
+                tear.append(progs.scenario(100000 + len(tear) + 1, steps, exec_='bigmachine', interpose=True, loss=True, timeout_s=60, parallelism=3, machprocs=1))
             for i, p0 in enumerate(sprogs):
                 for b in rng.sample(range(40, 420), (16 if i == 0 else 5) if tier == 'quick' else 100):
-                    plans = [{'method': 'Worker.Read', 'ordinal': rng.choice([1, 2, 3, 4]), 'phase': 'mid', 'bytes': b}]
+                    plans = [{'method': 'Worker.Read', 'ordinal': rng.choice(range(1, 13)), 'phase': 'mid', 'bytes': b}]
                     steps = [kills_step(plans), progs.step_run('r0', p0), kills_step([]), progs.step_scan('r0')]
                     cfg = {'parallelism': rng.choice([2, 3]), 'machprocs': 1}
                     tear.append(progs.scenario(100000 + len(tear) + 1, steps, exec_='bigmachine', interpose=True, loss=True, timeout_s=60, **cfg))
